@@ -313,6 +313,22 @@ def base_catalogue():
     decls.append(Rec("OptThenTransient", [F("a", "u8"), F("c", "Option<u32>", "transient", "None")],
                      [("opt", "c"), ("tra", "c")]))
     decls.append(Rec("OptThenRemoved", [F("a", "u8")], [("opt", "c"), ("rem", "c")]))
+    # added, made optional, then transient / removed: every earlier step that touched the field stays in the history (C14)
+    decls.append(Rec("AddOptTra", [F("a", "u8"), F("note", "Option<String>", "transient", "None"), F("b", "u16")],
+                     [("add", "note", "Some(String::new())"), ("opt", "note"), ("tra", "note")]))
+    decls.append(Rec("AddOptRem", [F("a", "u8"), F("b", "u16")],
+                     [("add", "note", "Some(String::new())"), ("opt", "note"), ("rem", "note")]))
+    decls.append(Rec("AddTraAdd", [F("a", "u8"), F("t", "u32", "transient", "7u32"), F("n", "String")],
+                     [("add", "t", "1u32"), ("tra", "t"), ("add", "n", "String::new()")]))
+    decls.append(Enum("AddOptTraE", [Variant("A", "unit", Rec("A", [])),
+                                     Variant("S", "struct", Rec("S", [F("a", "u8"), F("note", "Option<u16>", "transient", "None")],
+                                                                [("add", "note", "Some(1u16)"), ("opt", "note"), ("tra", "note")])),
+                                     Variant("R", "struct", Rec("R", [F("a", "u8")],
+                                                                [("add", "gone", "Some(1u16)"), ("opt", "gone"), ("rem", "gone")]))]))
+    # the documented limit: 255 versions = 254 steps after the initial one (C17)
+    decls.append(Rec("Steps254", [F("a", "u8"), F("n0", "u8"), F("n1", "String")],
+                     [("add", "n0", "0u8")] + [("rem", "old%d" % i) for i in range(126)] + [("add", "n1", "String::new()")]
+                     + [("rem", "older%d" % i) for i in range(126)]))
     # nesting and recursion
     decls.append(Rec("Inner", [F("id", "String")]))
     decls.append(Rec("Outer", [F("head", "u16"), F("inner", "Inner"), F("list", "Vec<Inner>"), F("tail", "String")]))
@@ -582,8 +598,9 @@ def main():
     # holders that embed an evolved record between siblings
     out.append("\n/// S-expressions of every generated declaration, for the model's environment")
     out.append("pub fn env_lines() -> Vec<String> {\n    vec![\n%s\n    ]\n}" % ",\n".join("        format!(\"env {}\", %s)" % e for e in env_fns))
-    out.append("\npub trait DeclVisitor {\n    fn decl<T: V + VaryTransient>(&mut self);\n    fn pair<W: V, R: V>(&mut self, hist: &str, w: usize, r: usize, removed_chunk0_after_w: bool, pinned: Vec<W>);\n    fn ext<E1: V, E2: V>(&mut self, n_old: usize);\n}")
-    out.append("\npub fn visit_decls<Vis: DeclVisitor>(v: &mut Vis) {\n%s\n}" % "\n".join("    v.decl::<%s>();" % n for n in names))
+    out.append("\npub trait DeclVisitor {\n    fn decl<T: V + VaryTransient>(&mut self);\n    /// one version of an evolution history, as a declaration of its own\n    fn version<T: V + VaryTransient>(&mut self) {}\n    fn pair<W: V, R: V>(&mut self, hist: &str, w: usize, r: usize, removed_chunk0_after_w: bool, pinned: Vec<W>);\n    fn ext<E1: V, E2: V>(&mut self, n_old: usize);\n}")
+    version_lines = ["    v.version::<%s>();" % vn for _, vnames in hist_names for vn in vnames]
+    out.append("\npub fn visit_decls<Vis: DeclVisitor>(v: &mut Vis) {\n%s\n%s\n}" % ("\n".join("    v.decl::<%s>();" % n for n in names), "\n".join(version_lines)))
     pair_lines = []
     for (hname, vnames), (_, versions, _) in zip(hist_names, hists):
         for w in range(len(vnames)):
